@@ -5,6 +5,7 @@ import (
 	"fmt"
 	"math/big"
 
+	pb "github.com/google/go-tdx-guest/proto/tdx"
 	"verif/sim/core"
 	"verif/sim/world"
 )
@@ -315,6 +316,41 @@ func c01Run(r *core.Run) {
 		_ = total
 	}
 
+	// (a') the message form carries some 16-bit wire fields as 32-bit numbers: a high bit set there is a
+	// change of the header / QE report that the signed bytes do not show.  Must be rejected.
+	if r.Item("msg-high-bits") {
+		type hb struct {
+			name string
+			set  func(m *pb.QuoteV4, bit uint)
+		}
+		fields := []hb{
+			{"header.version", func(m *pb.QuoteV4, b uint) { m.Header.Version |= 1 << b }},
+			{"header.attestation_key_type", func(m *pb.QuoteV4, b uint) { m.Header.AttestationKeyType |= 1 << b }},
+			{"qe_report.isv_prod_id", func(m *pb.QuoteV4, b uint) {
+				m.SignedData.CertificationData.QeReportCertificationData.QeReport.IsvProdId |= 1 << b
+			}},
+			{"qe_report.isv_svn", func(m *pb.QuoteV4, b uint) {
+				m.SignedData.CertificationData.QeReportCertificationData.QeReport.IsvSvn |= 1 << b
+			}},
+			{"qe_auth_data.parsed_data_size", func(m *pb.QuoteV4, b uint) {
+				m.SignedData.CertificationData.QeReportCertificationData.QeAuthData.ParsedDataSize |= 1 << b
+			}},
+		}
+		for _, f := range fields {
+			for b := uint(16); b < 32; b++ {
+				m := w.Quote.Proto(0)
+				f.set(m, b)
+				for _, level := range []int{O0, O1} {
+					judge("msg-high-bit:"+f.name, fmt.Sprintf("message with bit %d of %s set", b, f.name), verifyMsg(m, worldOpts(w, level)), optNames[level], "TdxQuote(message)")
+				}
+			}
+			r.State("msg-high-bit %s", f.name)
+		}
+		r.Fault("wire:message_field_high_bit", true)
+		r.Probe("message_high_bits")
+		r.EndItem()
+	}
+
 	// (b)-(d) forgeries
 	for _, f := range c01Forgeries(r, w) {
 		if !r.Item(f.name) {
@@ -400,6 +436,6 @@ func init() {
 			return 24
 		},
 		Run:       c01Run,
-		MustProbe: []string{"bitflips_enumerated"},
+		MustProbe: []string{"bitflips_enumerated", "message_high_bits"},
 	})
 }
